@@ -8,3 +8,5 @@ mkdir -p .build evidence
 (cd lean && lake build)
 cp -n /repo/Cargo.lock harness/Cargo.lock 2>/dev/null || true
 (cd harness && CARGO_NET_OFFLINE=true CARGO_TARGET_DIR="$PWD/../.build/target" cargo build --offline)
+cp -n /repo/Cargo.lock harness-color/Cargo.lock 2>/dev/null || true
+(cd harness-color && CARGO_NET_OFFLINE=true CARGO_TARGET_DIR="$PWD/../.build/target-color" cargo build --offline)
